@@ -210,11 +210,17 @@ pub enum Nest {
     If,
     /// in a match arm in the function body
     Match,
+    /// in the `else` arm of an `if` (the sibling arm is the `then` arm, which
+    /// comes first: nothing declared there may be visible here)
+    Else,
+    /// in the second arm of a match (the sibling arm, with its pattern, comes first)
+    Arm2,
     /// at item level: constant initialiser (Call, Const, RecLit) or
     /// parameter type of a function signature (RecTy)
     ItemLevel,
 }
-pub const NESTS: [Nest; 5] = [Nest::Body, Nest::Block, Nest::If, Nest::Match, Nest::ItemLevel];
+pub const NESTS: [Nest; 7] =
+    [Nest::Body, Nest::Block, Nest::If, Nest::Match, Nest::Else, Nest::Arm2, Nest::ItemLevel];
 
 impl Nest {
     pub fn name(self) -> &'static str {
@@ -223,14 +229,16 @@ impl Nest {
             Nest::Block => "nested-block",
             Nest::If => "if-arm",
             Nest::Match => "match-arm",
+            Nest::Else => "else-arm",
+            Nest::Arm2 => "second-match-arm",
             Nest::ItemLevel => "item-level",
         }
     }
     pub fn has_inner(self) -> bool {
-        matches!(self, Nest::Block | Nest::If | Nest::Match)
+        matches!(self, Nest::Block | Nest::If | Nest::Match | Nest::Else | Nest::Arm2)
     }
     pub fn has_sibling(self) -> bool {
-        matches!(self, Nest::If | Nest::Match)
+        matches!(self, Nest::If | Nest::Match | Nest::Else | Nest::Arm2)
     }
 }
 
@@ -273,6 +281,7 @@ pub const TAG_IN_LET: u32 = 92;
 pub const TAG_PARAM: u32 = 93;
 pub const TAG_PATTERN: u32 = 94;
 pub const TAG_LATE_LET: u32 = 95;
+pub const TAG_SIBLING_LET: u32 = 96;
 
 #[derive(Clone, Debug, Default)]
 pub struct BlockParts {
@@ -305,8 +314,10 @@ pub struct Prog {
     pub fnb: BlockParts,
     /// inner block / arm (nest Block, If, Match)
     pub inner: BlockParts,
-    /// imports in the sibling arm (nest If, Match)
+    /// imports in the sibling arm (nest If, Match, Else, Arm2)
     pub sibling: Vec<ImportStmt>,
+    /// `let NAME = 96;` in the sibling arm (must not interfere)
+    pub sibling_lets: Vec<Seg>,
 }
 
 impl Prog {
@@ -325,6 +336,7 @@ impl Prog {
             fnb: BlockParts::default(),
             inner: BlockParts::default(),
             sibling: vec![],
+            sibling_lets: vec![],
         }
     }
 
@@ -407,12 +419,15 @@ impl Prog {
                 let body = self.block_inside(&self.fnb, TAG_FN_LET, &core, "    ");
                 format!("fn p{idx}({param}) -> u32 {{\n{body}    r\n}}\n")
             }
-            Nest::Block | Nest::If | Nest::Match => {
+            Nest::Block | Nest::If | Nest::Match | Nest::Else | Nest::Arm2 => {
                 let core = format!("        {use_stmts}\n");
                 let inner = self.block_inside(&self.inner, TAG_IN_LET, &core, "        ");
                 let mut sib = String::new();
                 for i in &self.sibling {
                     sib += &format!("        {}\n", i.render());
+                }
+                for l in &self.sibling_lets {
+                    sib += &format!("        let {l} = {TAG_SIBLING_LET};\n");
                 }
                 let construct = match self.nest {
                     Nest::Block => format!("    let v = {{\n{inner}        r\n    }};\n"),
@@ -423,6 +438,15 @@ impl Prog {
                         let pat = self.pattern.unwrap_or("y");
                         format!(
                             "    let v = match Option.Some({TAG_PATTERN}) {{\n        Some({pat}) => {{\n{inner}        r\n        }}\n        None => {{\n{sib}        0\n        }}\n    }};\n"
+                        )
+                    }
+                    Nest::Else => format!(
+                        "    let v = if false {{\n{sib}        0\n    }} else {{\n{inner}        r\n    }};\n"
+                    ),
+                    Nest::Arm2 => {
+                        let pat = self.pattern.unwrap_or("y");
+                        format!(
+                            "    let v = match (if true {{ Option.None }} else {{ Option.Some({TAG_PATTERN}) }}) {{\n        Some({pat}) => {{\n{sib}        0\n        }}\n        None => {{\n{inner}        r\n        }}\n    }};\n"
                         )
                     }
                     _ => unreachable!(),
